@@ -469,6 +469,14 @@ func (h *harness) probesForStep(j int) {
 		if _, f := s.selected(); f {
 			r.Probe("topology_filtered")
 		}
+		if z, c := s.knownShapes(); z || c {
+			if z {
+				r.Probe("known_defect_precondition_zero_backends")
+			}
+			if c {
+				r.Probe("known_defect_precondition_changed_selection")
+			}
+		}
 		for _, e := range s.eps {
 			if e.term {
 				r.Probe("terminating_endpoint")
@@ -529,7 +537,7 @@ func run(r *core.R) {
 		"crash_in_frontend_delete", "crash_in_backend_delete", "crash_in_affinity_cleanup", "crash_left_orphan_backends",
 		"crash_recovery_newer_state", "crash_point_not_reached", "sticky_key_failed_again",
 		"externalip_with_etp_local_unclaimed", "enumerated_crash_points", "enum_crash_point_not_reached",
-		"KNOWN_hinted_terminating_endpoint_blackholes_frontend", "KNOWN_hinted_terminating_endpoint_changes_selection")
+		"known_defect_precondition_zero_backends", "known_defect_precondition_changed_selection")
 	src := r.Src
 	h := &harness{r: r}
 	thorough := r.Tier == "thorough"
@@ -556,7 +564,6 @@ func run(r *core.R) {
 	r.Cfg("node_port_ips", len(h.npIPs))
 	r.Cfg("p_upd", pUpd)
 	r.Cfg("p_del", pDel)
-	r.Cfg("strict_topology", strictTopology)
 
 	// ---- 1. generate the history of Kubernetes-level states
 	st := &kState{slots: make([]*kSvc, nSlots)}
